@@ -30,7 +30,8 @@ WIDE = dict(
     policies=["uniform", "uniform", "first", "last", "alternate"],
     plan={"time": 0.8, "cust": 0.2, "deadlock": 0.0},
     horizon=[5.0, 12.0, 30.0],
-    splits=0,
+    splits=1,
+    spawn=0.5,
     tdep=0.15,
     restricted=False,
     ordinary_only=False,
@@ -332,7 +333,12 @@ def gen_spec(r, P):
             else:
                 cuts.append(round(r.uniform(0, T), 4))
         cuts = sorted(x for x in cuts if 0 < x < T)
-        S["plan"] = [["time", x] for x in cuts] + [["time", T]]
+        S["plan"] = []
+        for x in cuts:
+            S["plan"].append(["time", x])
+            if r.random() < P.get("spawn", 0.0):
+                S["plan"].append(["spawn"])
+        S["plan"].append(["time", T])
     elif pk == "cust":
         S["plan"] = [["cust", r.randint(1, 15), r.choice(["Complete", "Finish", "Arrive", "Accept"])]]
     else:
